@@ -138,7 +138,8 @@ def _detect_alleles(variants, var_progress, first, bam_read):
             continue
 
         # Queue all variants that start within the ref span of the cigar operation
-        ref_end = ref_pos + length
+        # (an insertion spans no reference base: it only meets variants at its own position)
+        ref_end = ref_pos + length if cigar_op != 1 else ref_pos + 1
         while j < n:
             var_id = var_progress[j].variant_id
             var_pos = variants[var_id].position
